@@ -304,13 +304,13 @@ def warm_up(tree):
         code_of(tree)
 
 
-def program_specs(rng=None, n_minif=0):
+def program_specs(rng=None, n_minif=0, nstmts=5):
     specs = [{"kind": "generic", "name": n} for n in c26_progs.GENERIC]
     specs += [{"kind": "alg", "api": "lfric", "name": "alg_lfric"},
               {"kind": "alg", "api": "gocean1.0", "name": "alg_gocean"}]
     specs += [{"kind": "psy", "api": a, "file": f, "dm": dm} for a, f, dm in c26_progs.INVOKES]
     for i in range(n_minif):
-        specs.append({"kind": "minif", "name": f"minif{i}", "source": c26_progs.minif_source(rng)})
+        specs.append({"kind": "minif", "name": f"minif{i}", "source": c26_progs.minif_source(rng, nstmts)})
     return specs
 
 
